@@ -22,6 +22,8 @@ func main() {
 		cmdCheck(os.Args[2:])
 	case "audit":
 		cmdAudit(os.Args[2:])
+	case "implscan":
+		cmdImplScan(os.Args[2:])
 	default:
 		fmt.Fprintln(os.Stderr, "unknown command")
 		os.Exit(2)
